@@ -94,7 +94,7 @@ class C10(E1Check):
             extra += [("update", q, sp, None, via) for q in V[:5] for sp in specs[:4]]
             extra += [("update_all", sp, via) for sp in specs[:4]]
         have = set(base)
-        self._ladder_probes = {e for e in extra if e not in have}
+        self._lp[cfg["name"]] = {e for e in extra if e not in have}
         return base + [e for e in extra if e not in have]
 
     def budget(self):
@@ -108,12 +108,12 @@ class C10(E1Check):
         self.probe_set = {p for p in self.probe_list if p not in have}
         return base + [p for p in self.probe_list if p in self.probe_set]
 
-    def is_probe(self, op):
-        return op in self.probe_set or op in getattr(self, "_ladder_probes", ())
+    def is_std_probe(self, op):
+        return op in self.probe_set
 
     def enabled(self, op, contents, cfg, history):
         n = W.op_inserts(op)
-        if n and len(contents) + n > cfg.get("N", self.bounds()["N"]) + (1 if self.is_probe(op) else 0):
+        if n and len(contents) + n > cfg.get("N", self.bounds()["N"]) + (1 if self.is_probe(op, cfg) else 0):
             return False
         return True
 
@@ -123,7 +123,7 @@ class C10(E1Check):
     def transition(self, T, counters):
         out = []
         op = T.op
-        if op not in self.probe_list and op not in getattr(self, "_ladder_probes", ()) and not (
+        if op not in self.probe_list and op not in self._lp.get(T.cfg["name"], ()) and not (
                 op[0] in ("insert", "h_remove_all") and op in (("insert", "P0", None, False, "h:n"), ("h_remove_all", "m"))):
             return out
         if op[0] not in ("insert", "insert_multiple", "remove", "h_remove_all", "update", "update_all") or (op[0] != "h_remove_all" and not str(op[-1]).startswith("h:")):
